@@ -1304,14 +1304,45 @@ impl SparqlDatabase {
         let chunk_size = 1000;
         let chunks: Vec<Vec<String>> = lines.chunks(chunk_size).map(|c| c.to_vec()).collect();
 
+        // Prefix declarations are document-scoped, not chunk-scoped: compute, in
+        // document order, the prefix map in effect at the start of every chunk.
+        let mut prefixes_at_chunk_start: Vec<HashMap<String, String>> =
+            Vec::with_capacity(chunks.len());
+        let mut running_prefixes = self.prefixes.clone();
+        for chunk in &chunks {
+            prefixes_at_chunk_start.push(running_prefixes.clone());
+            for raw_line in chunk {
+                // Same preprocessing as the per-chunk parser below.
+                let mut line = raw_line.as_str();
+                if let Some(comment_start) = Self::n3_comment_start(line) {
+                    line = line[..comment_start].trim();
+                }
+                if line.starts_with("@prefix") {
+                    let line = line.trim_start_matches("@prefix").trim_end_matches('.');
+                    let parts: Vec<&str> = line.split_whitespace().collect();
+                    if parts.len() >= 2 {
+                        running_prefixes.insert(
+                            parts[0].trim_end_matches(':').to_string(),
+                            parts[1]
+                                .trim_start_matches('<')
+                                .trim_end_matches('>')
+                                .to_string(),
+                        );
+                    }
+                }
+            }
+        }
+
         let partial_results: Vec<(
             Vec<Triple>,
             Arc<RwLock<Dictionary>>,
             HashMap<String, String>,
         )> = chunks
             .par_iter()
-            .map(|chunk| {
+            .zip(prefixes_at_chunk_start.par_iter())
+            .map(|(chunk, inherited_prefixes)| {
                 let mut local_db = SparqlDatabase::new();
+                local_db.prefixes = inherited_prefixes.clone();
                 let mut statement = String::new();
 
                 for raw_line in chunk {
@@ -1355,14 +1386,29 @@ impl SparqlDatabase {
             .collect();
 
         for (triples, dict_arc, pref) in partial_results {
-            for t in triples {
-                self.add_triple(t);
-            }
-            let mut self_dict = self.dictionary.write().unwrap();
+            // The IDs of a chunk are private to the chunk's dictionary: translate
+            // every triple through its lexical form into the shared dictionary
+            // instead of merging the two dictionaries by ID.
             let other_dict = dict_arc.read().unwrap();
-            self_dict.merge(&other_dict);
+            for t in triples {
+                let (Some(subject), Some(predicate), Some(object)) = (
+                    other_dict.decode(t.subject),
+                    other_dict.decode(t.predicate),
+                    other_dict.decode(t.object),
+                ) else {
+                    continue;
+                };
+                let triple = {
+                    let mut self_dict = self.dictionary.write().unwrap();
+                    Triple {
+                        subject: self_dict.encode(subject),
+                        predicate: self_dict.encode(predicate),
+                        object: self_dict.encode(object),
+                    }
+                };
+                self.add_triple(triple);
+            }
             drop(other_dict);
-            drop(self_dict);
             for (k, v) in pref {
                 self.prefixes.insert(k, v);
             }
